@@ -98,6 +98,8 @@ structure Sto where
   log : List Frame := []      -- frames stored in the current run (ghost, = what the mock records)
   base : Nat := 0             -- ghost: bytes committed to `sink.in` when this run of the storage was started
   clean : Bool := true        -- ghost: the sink's reader had consumed everything at that moment
+  ncommit : Nat := 0          -- ghost: frames committed to `sink.in` since this run of the storage was started
+  dropped : Bool := false     -- ghost: a frame of this run was not committed because the channel refused writes
   appended : Nat := 0         -- ghost: stream position up to which the frames of `sink.in` have been appended in this run
   appendsAfterFailure : Nat := 0   -- ghost: appends that reached the driver after a failed one
 deriving Repr, Inhabited
@@ -273,6 +275,8 @@ def srcActs (s : Nat) : List (Act Stream) := [
   { name := "src.commit", guard := fun st => st.src.pc = .commitLock && sinkLockFree st,
     upd := fun st => { st with sinkCh := (chanOp st.sinkCh .wcommit).1,
                                sinkFrames := addFrame st.sinkFrames st.sinkCh.total (chanOp st.sinkCh .wcommit).1.total st.src.cur,
+                               sto := { st.sto with ncommit := st.sto.ncommit + (if st.src.cur.isSome && decide ((chanOp st.sinkCh .wcommit).1.total > st.sinkCh.total) then 1 else 0),
+                                                    dropped := st.sto.dropped || (st.src.cur.isSome && !decide ((chanOp st.sinkCh .wcommit).1.total > st.sinkCh.total)) },
                                src := { st.src with pc := .loopTest, cur := none } } },
   { name := "src.camstop", guard := fun st => st.src.pc = .camStop,
     upd := fun st => { st with cam := { st.cam with state := .armed, drvStops := st.cam.drvStops + 1 },
